@@ -335,10 +335,30 @@ func (r *Run) Watch(limit time.Duration, pkgMarker string, f func()) (dump strin
 		return "", true, false
 	default:
 	}
-	if a == b && a != "" && !strings.Contains(a, "[running]") && !strings.Contains(a, "[runnable]") {
+	// parked: nothing that mentions the code under test can run, now and a second later. A goroutine in time.Sleep
+	// (the monitor's own slow sink, called from the code under test) will wake up by itself: that is slow, not parked.
+	if a == b && a != "" && !strings.Contains(a, "[running]") && !strings.Contains(a, "[runnable]") && !sleepingUnderTest(a) {
 		return a, false, true
 	}
 	return a + "\n----\n" + b, false, false
+}
+
+// sleepingUnderTest: some goroutine is in time.Sleep on behalf of the code under test - its stack has a frame in a
+// source file of the code under test (not one of the monitor's own zz_verif files): e.g. the monitor's slow error
+// sink called from the scan's error-draining goroutine. (The monitor's own tickers sleep too; they do not count.)
+func sleepingUnderTest(stacks string) bool {
+	for _, g := range strings.Split(stacks, "\n\n") {
+		if !strings.HasPrefix(g, "[sleep]") {
+			continue
+		}
+		for _, l := range strings.Split(g, "\n") {
+			l = strings.TrimSpace(l)
+			if strings.Contains(l, ".go:") && strings.Contains(l, "/sx/") && !strings.Contains(l, "zz_verif") && !strings.Contains(l, "/vlab/") {
+				return true
+			}
+		}
+	}
+	return false
 }
 
 // relevantStacks returns the normalised stacks of all goroutines that mention marker.
